@@ -53,7 +53,7 @@ def sh(cmd, cwd=None, timeout=None, env=None, stdin=None):
 
 
 class Check:
-    def __init__(self, pid, tier, seed=None):
+    def __init__(self, pid, tier, seed=None, keep_replays=False):
         self.pid = pid                      # "C04"
         self.low = pid.lower()
         self.tier = tier if tier in ("quick", "thorough") else "quick"
@@ -69,7 +69,7 @@ class Check:
         os.makedirs(os.path.join(ROOT, "evidence"), exist_ok=True)
         os.makedirs(os.path.join(ROOT, "replays"), exist_ok=True)
         import glob
-        for old in glob.glob(os.path.join(ROOT, "replays", pid + "-*")):
+        for old in ([] if keep_replays else glob.glob(os.path.join(ROOT, "replays", pid + "-*"))):
             os.unlink(old)
         self.violations = []      # (replay_path, text, no_input_found)
         self.known_seen = []      # strings
